@@ -34,6 +34,22 @@ MenuR2 == {<<Create(""), Destroy("")>>, <<Create(""), Destroy(""), Create("")>>,
 MenuR3 == {<<Modify("t3", "")>>, <<Destroy(""), Create("")>>, <<AddFin("f"), RemFin("f")>>}
 ProgramsRace == {[a \in A3 |-> IF a = 1 THEN p1 ELSE IF a = 2 THEN p2 ELSE p3] : p1 \in MenuR1, p2 \in MenuR2, p3 \in MenuR3}
 
+(* C03: blocked watchers across a re-creation: the first incarnation climbs to version 5, the second one reaches the awaited *)
+(* state at a LOWER version (versions restart at 1): a helper that remembers versions across incarnations misses it       *)
+MenuV1 == {<<Create(""), AddFin("f"), AddFin("g"), RemFin("g"), RemFin("f"), Destroy(""), Create(""), Teardown("")>>,
+           <<Create(""), AddFin("f"), RemFin("f"), AddFin("g"), RemFin("g"), Destroy(""), Create(""), AddFin("f"), Teardown(""), RemFin("f")>>}
+MenuV2 == {<<WatchFor("tearingDown")>>, <<Ctx>>, <<Tad("")>>}
+MenuV3 == {<<WatchFor("tearingDown")>>, <<WatchFor("finsEmpty")>>, <<WatchFor("destroyed")>>}
+ProgramsRecreate == {[a \in A3 |-> IF a = 1 THEN p1 ELSE IF a = 2 THEN p2 ELSE p3] : p1 \in MenuV1, p2 \in MenuV2, p3 \in MenuV3}
+
+(* C04: IDEMPOTENT mutators (tokens i1: "set X") by two callers plus a teardown: a retry whose mutation has become a no-op *)
+(* must still honour the expected phase                                                                                   *)
+MenuI1 == {<<Uwc("i1", "", "running")>>, <<Modify("i1", "")>>, <<Uwc("i1", "", "running"), Uwc("i1", "", "running")>>}
+MenuI2 == {<<Uwc("i1", "", "any"), Teardown("")>>, <<Modify("i1", ""), Teardown("")>>, <<Teardown(""), Uwc("i1", "", "any")>>,
+           <<Uwc("i1", "", "any"), Teardown(""), Destroy("")>>}
+MenuI3 == {<<Create("")>>, <<Create(""), AddFin("f")>>}
+ProgramsIdem == {[a \in A3 |-> IF a = 1 THEN p1 ELSE IF a = 2 THEN p2 ELSE p3] : p1 \in MenuI1, p2 \in MenuI2, p3 \in MenuI3}
+
 (* liveness configuration: the interfering actor ends with the finalizer removed *)
 ProgramsLive == {[a \in {1, 2} |-> IF a = 1 THEN <<Create(""), AddFin("f"), Tad("")>> ELSE p2] :
                    p2 \in {<<RemFin("f")>>, <<AddFin("g"), RemFin("g"), RemFin("f")>>, <<Teardown(""), RemFin("f")>>}}
